@@ -42,6 +42,7 @@ func init() {
 			"one request in 12 is rendered outside a matched operation: Context.Respond with route nil or with a hand-made MatchedRoute without Operation (1-3 produces entries of the description, value / nil / error data, GET POST DELETE HEAD) and Context.NotFound; " +
 			"one API in 8 declares a media type for which no producer is registered (the library's fall-back to the default producer); one default type in 10 is written with parameters; [{key},{basic}] security alternatives; " +
 			"round 4: one description in seven declares (and registers producers for) media types spelled with upper-case letters - vendor types, Text/Plain - with and without parameters, next to lower-case types, with (4 in 5) and without an API default producer; two Accept headers in three of such an operation name the offers verbatim in the plain form; " +
+			"round 5: three APIs in four keep 1-2 LONG-LIVED library responders (one middleware.Error(code, data, headers) / NotImplemented value built once and returned by the handlers of one request in five, whatever the operation, Accept header or flow, route-less Respond included): every response such a value writes is owed what a responder built for the occasion owes - the body the producer of the type negotiated for THAT request writes; a violation names the earlier uses (first two, last two) as earlier_requests; " +
 			"a request for a declared operation that reaches the Builder middleware or the generated handler without a MatchedRoute is a violation. Oracle from the statement; the offers are computed from the DECLARED produces (operation, else spec) plus the API default, the observed MatchedRoute.Produces must be that set and only lends its order. " +
 			"non-trivial = request that reached the stage it was meant for; distinct by (entry shape of the negotiated type, Accept flavour, outcome kind, method, declared code, stage)",
 		Assumptions: []string{
@@ -56,6 +57,7 @@ func init() {
 			"a request that is both unacceptable (406) and lacks a required parameter may be refused with either error; a denied authorization is judged like a failed authentication (before the 406 gate)",
 			"the API's error responder is the function that api.ServeError holds when the error is served (the field is exported and documented as the hook): after the application has reassigned it, an invocation of an earlier function is a violation",
 			"a response rendered without a matched operation (route-less Respond, NotFound) has no declared status: its status is not judged; its offers are the produces handed in (NotFound: the API default alone) without the API default, the default last; a value when nothing is acceptable is not judged there (no 406 gate ran)",
+			"a long-lived responder value (middleware.Error / NotImplemented kept by the application and returned for several requests) owes each response what a fresh one owes; when it has written an earlier response and does not call the producer it is handed, the response is judged by its body alone (the statement fixes the body, not how often a long-lived value asks the producer for it); HEAD: a Responder's body is not judged",
 			"a negotiated type for which no producer is registered (declared_types_without_producer; api.Validate() would refuse the configuration): who writes the body, or a 'can't find a producer' panic, is not judged; judged: nothing is produced twice, a producer that ran got the handler's value and the body is its output; HEAD/204 and errors as everywhere",
 		},
 		MinNontrivial: 150,
@@ -128,6 +130,19 @@ type Outcome struct {
 	Code    int                 `json:"code,omitempty"`
 	Headers map[string][]string `json:"headers,omitempty"`
 	Data    string              `json:"data,omitempty"`
+	// LongLived (lib-error, not-implemented): the handler does not build a responder for this request; it returns the
+	// ONE responder value the application keeps for this outcome (a canned 4xx answer, a stub for operations that are
+	// not implemented yet: built with middleware.Error / NotImplemented the first time it is needed, and returned by every
+	// handler - of whatever operation of the API - whose request carries the same outcome). What is owed for the
+	// response is the same as for a responder built for the occasion.
+	LongLived bool `json:"long_lived_responder,omitempty"`
+}
+
+// stubKey identifies the long-lived responder of an outcome (everything but the flag).
+func (o Outcome) stubKey() string {
+	o.LongLived = false
+	b, _ := json.Marshal(o)
+	return string(b)
 }
 
 // ReqDesc is one request.
@@ -385,6 +400,93 @@ type built struct {
 	// the handler and context of the generated-routable flow, shared by the API's served sets
 	rh   http.Handler
 	rctx *middleware.Context
+	// the long-lived responders of the application (by Outcome.stubKey), the requests whose handler returned each of
+	// them so far (in order), and the media types (parameters stripped, lower case) their responses announced
+	stubs     map[string]middleware.Responder
+	stubUses  map[string][]ReqDesc
+	stubTypes map[string]map[string]bool
+}
+
+// longLived returns the one responder value the application keeps for the outcome, building it the first time.
+func (b *built) longLived(o Outcome, fresh func() middleware.Responder) middleware.Responder {
+	k := o.stubKey()
+	if b.stubs == nil {
+		b.stubs, b.stubUses, b.stubTypes = map[string]middleware.Responder{}, map[string][]ReqDesc{}, map[string]map[string]bool{}
+	}
+	if b.stubs[k] == nil {
+		b.stubs[k] = fresh()
+	}
+	if b.cur != nil {
+		b.stubUses[k] = append(b.stubUses[k], *b.cur)
+	}
+	return b.stubs[k]
+}
+
+// usesBefore: the requests whose handler returned the long-lived responder of this outcome so far (a copy).
+func (b *built) usesBefore(o Outcome) []ReqDesc {
+	if !o.LongLived {
+		return nil
+	}
+	return append([]ReqDesc(nil), b.stubUses[o.stubKey()]...)
+}
+
+// noteStubUse classes one use of a long-lived responder by the media types its earlier responses announced.
+func (b *built) noteStubUse(m *mon.M, o Outcome, prior []ReqDesc, announced string) (reuse string) {
+	k := o.stubKey()
+	t := strings.ToLower(accept.NormOffer(announced))
+	seen := b.stubTypes[k]
+	switch {
+	case len(prior) == 0:
+		reuse = "first-use"
+	case len(seen) == 1 && seen[t]:
+		reuse = "reused/every-earlier-response-announced-the-same-media-type"
+	default:
+		reuse = "reused/an-earlier-response-announced-another-media-type"
+	}
+	if seen == nil {
+		seen = map[string]bool{}
+		b.stubTypes[k] = seen
+	}
+	seen[t] = true
+	m.Class("long-lived-responder:" + reuse)
+	return reuse
+}
+
+// longLivedFeature is appended to the signature of a violation on a response written by a long-lived responder value
+// that had written an earlier response.
+const longLivedFeature = "+responder-value-that-wrote-an-earlier-response"
+
+// historyFor turns the earlier uses of a long-lived responder into the requests a replay serves first (at most the
+// first two and the last two), on a description reduced to the operations they need: ops holds the operation of
+// the judged request at index 0 and is extended.
+func (b *built) historyFor(prior []ReqDesc, ops []OpDesc, cur int) ([]OpDesc, []ReqDesc) {
+	if len(prior) > 4 {
+		prior = append(append([]ReqDesc(nil), prior[:2]...), prior[len(prior)-2:]...)
+	}
+	idx := map[int]int{}
+	if cur >= 0 {
+		idx[cur] = 0
+	}
+	var warm []ReqDesc
+	for _, w := range prior {
+		if w.Entry != "" {
+			// a direct entry: the produces it hands to Respond must be registered
+			if len(w.Produces) > 0 {
+				ops = append(ops, OpDesc{Method: "GET", Produces: dedupStrings(w.Produces), Codes: []int{200}})
+			}
+			w.Op = 0
+		} else {
+			n, ok := idx[w.Op]
+			if !ok {
+				n = len(ops)
+				idx[w.Op] = n
+				ops = append(ops, b.desc.Ops[w.Op])
+			}
+			w.Op = n
+		}
+		warm = append(warm, w)
+	}
+	return ops, warm
 }
 
 // installResponder assigns a recording error responder to api.ServeError; it remembers which generation it is.
@@ -564,9 +666,17 @@ func (b *built) handle() (interface{}, error) {
 			}
 			hs = append(hs, hc)
 		}
-		res = middleware.Error(o.Code, o.Data, hs...)
+		if o.LongLived {
+			res = b.longLived(o, func() middleware.Responder { return middleware.Error(o.Code, o.Data, hs...) })
+		} else {
+			res = middleware.Error(o.Code, o.Data, hs...)
+		}
 	case "not-implemented":
-		res = middleware.NotImplemented(o.Data)
+		if o.LongLived {
+			res = b.longLived(o, func() middleware.Responder { return middleware.NotImplemented(o.Data) })
+		} else {
+			res = middleware.NotImplemented(o.Data)
+		}
 	case "api-error":
 		err = errors.New(int32(o.Code), "api error %s", o.Data)
 	case "plain-error":
@@ -889,13 +999,15 @@ func runCaseOn(m *mon.M, c *Case, b *built, h *served) (violated bool) {
 		req.Header.Set("Authorization", "Basic "+base64.StdEncoding.EncodeToString([]byte("no-colon")))
 	}
 	rec := httptest.NewRecorder()
+	prior := b.usesBefore(rq.Outcome) // the earlier responses of the long-lived responder this request's handler returns
 	minimal := func() *Case {
-		dd := &APIDesc{DefaultProduces: d.DefaultProduces, Global: d.Global, Ops: []OpDesc{op}, Realm: d.Realm, Authorizer: d.Authorizer, CtxAuth: d.CtxAuth, BareOnly: d.BareOnly, Unregistered: d.Unregistered}
+		ops, warm := b.historyFor(prior, []OpDesc{op}, rq.Op)
+		dd := &APIDesc{DefaultProduces: d.DefaultProduces, Global: d.Global, Ops: ops, Realm: d.Realm, Authorizer: d.Authorizer, CtxAuth: d.CtxAuth, BareOnly: d.BareOnly, Unregistered: d.Unregistered}
 		r2 := *rq
 		r2.Op = 0
 		// the responder was replaced by an earlier request of this API: the case says so itself, so that it replays alone
 		r2.SwapResponder = rq.SwapResponder || b.respGen > 0
-		cs := &Case{API: dd, Req: r2, WantOrder: b.obs.produces}
+		cs := &Case{API: dd, Req: r2, WantOrder: b.obs.produces, Warm: warm}
 		if multi {
 			cs.Repeat = 200 // which of the declared 2xx codes comes out may depend on a map order
 		}
@@ -908,6 +1020,9 @@ func runCaseOn(m *mon.M, c *Case, b *built, h *served) (violated bool) {
 		}
 		if hasUpperCase(declared...) {
 			sig += upperCaseFeature
+		}
+		if len(prior) > 0 && b.obs.ran > 0 {
+			sig += longLivedFeature
 		}
 		cs := minimal()
 		if !inTrial && shrinks[sig] < 3 {
@@ -1089,6 +1204,11 @@ func runCaseOn(m *mon.M, c *Case, b *built, h *served) (violated bool) {
 	if w, ok := wantCT(); (ok && hasUpperCase(w)) || (!ok && hasUpperCase(ct)) {
 		upper = "|upper-case-type" // the negotiated (else the announced) type is spelled with capitals
 		m.Class("upper-case-negotiated-type:" + stage + ":" + oc)
+	}
+	if rq.Outcome.LongLived && obs.ran == 1 {
+		if reuse := b.noteStubUse(m, rq.Outcome, prior, ct); reuse != "first-use" {
+			upper += "|long-lived-responder-" + reuse
+		}
 	}
 	m.NT(fmt.Sprintf("%s|%s|%s|%s|%s|%d|%v|%s|%v|%s%s", stage, shape, rq.Flavour, rq.Outcome.Kind, op.Method, succ, d.DefaultProduces != "", rq.Flow, multi, rq.Deny, upper))
 	ctx := fmt.Sprintf("%s %s Accept=%q produces=%q default=%q", method, path, lines, obs.produces, d.DefaultProduces)
@@ -1382,6 +1502,11 @@ func runCaseOn(m *mon.M, c *Case, b *built, h *served) (violated bool) {
 			}
 		}
 		switch {
+		case len(obs.produced) == 0 && len(prior) > 0 && (op.Method == http.MethodHead || body == "["+wantTag+"]"+render(rq.Outcome.Data)):
+			// a responder value that has written earlier responses and did not call the producer this time: the statement
+			// fixes the body ("exactly what the producer registered for that media type writes for the result"), not how
+			// often a long-lived value asks for it - the body is the one owed (HEAD: a Responder's body is not judged)
+			m.Class("long-lived-responder:owed-body-written-without-a-producer-call")
 		case len(obs.produced) == 0:
 			violate("wrong-producer/library-responder/"+shape, fmt.Sprintf("%s: Content-Type %q but no registered producer ran; body %q", ctx, announced, clip(body)))
 		case len(obs.produced) != 1:
@@ -1484,6 +1609,7 @@ func runDirect(m *mon.M, c *Case, b *built, s *served) (violated bool) {
 		route.Produces = append([]string(nil), rq.Produces...)
 	}
 	mctx := s.contextFor(rq.Flow)
+	prior := b.usesBefore(rq.Outcome)
 	var data interface{}
 	if rq.Entry != entryNF {
 		res, err := b.handle() // what the middleware wants rendered
@@ -1515,6 +1641,9 @@ func runDirect(m *mon.M, c *Case, b *built, s *served) (violated bool) {
 		if hasUpperCase(declared...) {
 			sig += upperCaseFeature
 		}
+		if len(prior) > 0 {
+			sig += longLivedFeature
+		}
 		// the smallest API that registers what the entry needs
 		op := OpDesc{Method: "GET", Produces: declared, Codes: []int{200}}
 		if len(declared) == 0 {
@@ -1527,7 +1656,13 @@ func runDirect(m *mon.M, c *Case, b *built, s *served) (violated bool) {
 		r2 := *rq
 		r2.Op = 0
 		r2.SwapResponder = rq.SwapResponder || b.respGen > 0
-		m.Violate(sig, detail, &Case{API: dd, Req: r2})
+		cs := &Case{API: dd, Req: r2}
+		if len(prior) > 0 {
+			// the earlier responses of the long-lived responder, on the operations they need
+			dd.Ops, cs.Warm = b.historyFor(prior, dd.Ops, -1)
+			dd.Global, dd.Realm, dd.Authorizer, dd.CtxAuth = d.Global, d.Realm, d.Authorizer, d.CtxAuth
+		}
+		m.Violate(sig, detail, cs)
 	}
 
 	offers := accept.StatementOffers(declared, declared, d.DefaultProduces)
@@ -1564,6 +1699,11 @@ func runDirect(m *mon.M, c *Case, b *built, s *served) (violated bool) {
 	if (negOK && !neg.None && hasUpperCase(neg.Offer)) || (!negOK && hasUpperCase(ct)) {
 		upperD = "|upper-case-type"
 		m.Class("upper-case-negotiated-type:direct:" + oc)
+	}
+	if rq.Outcome.LongLived && kind == "lib-error" {
+		if reuse := b.noteStubUse(m, rq.Outcome, prior, ct); reuse != "first-use" {
+			upperD += "|long-lived-responder-" + reuse
+		}
 	}
 	m.NT(fmt.Sprintf("direct|%s|%s|%s|%s|%s|%s%s", rq.Entry, shape, rq.Flavour, kind, method, rq.Flow, upperD))
 	m.Class("outcome:direct:" + kind)
@@ -1662,6 +1802,9 @@ func runDirect(m *mon.M, c *Case, b *built, s *served) (violated bool) {
 			violate("wrong-content-type/"+rq.Entry+"/library-responder", fmt.Sprintf("%s: Content-Type %q, statement negotiates %q", desc, ct, neg.Offer))
 		case d.unregistered(ct):
 			m.Class("direct:no-producer-registered(not judged)")
+		case len(obs.produced) == 0 && len(prior) > 0 && (method == http.MethodHead || body == "["+wantTag+"]"+render(rq.Outcome.Data)):
+			// (as for a routed request: a long-lived responder value that writes the owed body without calling the producer again)
+			m.Class("long-lived-responder:owed-body-written-without-a-producer-call")
 		case len(obs.produced) != 1 || obs.produced[0].tag != wantTag:
 			violate("wrong-producer/"+rq.Entry+"/library-responder/"+shapeOf(ct), fmt.Sprintf("%s: Content-Type %q, producer calls %d (first: %v)", desc, ct, len(obs.produced), obs.produced))
 		case obs.produced[0].v != interface{}(rq.Outcome.Data):
@@ -1788,6 +1931,12 @@ func shrinkCase(c *Case, sig, detail string) (*Case, string) {
 	for steps := 0; steps < 20; steps++ {
 		var cands []*Case
 		op := c.API.Ops[0]
+		// the earlier responses of a long-lived responder: one fewer
+		for i := range c.Warm {
+			n := cloneCase(c)
+			n.Warm = append(n.Warm[:i:i], n.Warm[i+1:]...)
+			cands = append(cands, n)
+		}
 		if len(op.Produces) == 0 && len(c.API.Global) > 0 {
 			n := cloneCase(c)
 			n.API.Ops[0].Produces, n.API.Global = c.API.Global, nil
@@ -2235,6 +2384,48 @@ func genReq(r, ru *rand.Rand, d *APIDesc, i int) ReqDesc {
 	return rq
 }
 
+// genCanned draws the outcomes for which the application keeps ONE long-lived responder value (0-2 per API): canned
+// middleware.Error answers and NotImplemented stubs.
+func genCanned(r *rand.Rand) []Outcome {
+	var out []Outcome
+	for k, n := 0, []int{0, 1, 1, 2}[r.Intn(4)]; k < n; k++ {
+		o := Outcome{Kind: "lib-error", Data: fmt.Sprintf("canned%d", k), LongLived: true}
+		if r.Intn(3) == 0 {
+			o.Kind = "not-implemented"
+		} else {
+			o.Code = []int{0, 400, 404, 409, 422, 500, 503, 200}[r.Intn(8)]
+			if r.Intn(2) == 0 {
+				o.Headers = map[string][]string{"X-Rate": {"1"}}
+				if r.Intn(2) == 0 {
+					o.Headers["X-Multi"] = []string{"a", "b"}
+				}
+			}
+		}
+		out = append(out, o)
+	}
+	return out
+}
+
+// useCanned: one request in five of an API that keeps long-lived responders has its handler return one of them
+// (whatever the operation, the Accept header, the flow; a direct entry: a route-less Respond with a middleware.Error).
+func useCanned(r *rand.Rand, canned []Outcome, rq *ReqDesc) {
+	if len(canned) == 0 || rq.Route != "" || r.Intn(5) != 0 {
+		return
+	}
+	o := canned[r.Intn(len(canned))]
+	if rq.Entry != "" && (rq.Entry != entryNoRoute || !responderWithoutRoute || o.Kind != "lib-error") {
+		return
+	}
+	if o.Headers != nil {
+		hc := map[string][]string{}
+		for k, vs := range o.Headers {
+			hc[k] = append([]string(nil), vs...)
+		}
+		o.Headers = hc
+	}
+	rq.Outcome = o
+}
+
 // reqOffers: the offers of the request's operation (or of its direct entry): declared produces plus the API default.
 func reqOffers(d *APIDesc, rq *ReqDesc) []string {
 	src := d.Ops[rq.Op].Produces
@@ -2254,10 +2445,12 @@ func reqOffers(d *APIDesc, rq *ReqDesc) []string {
 func run(m *mon.M) {
 	r := m.Rand("apis")
 	ru := m.Rand("upper-case")
+	rl := m.Rand("long-lived-responders") // a PRNG of its own: the other draws are what they were without this dimension
 	napi := m.N(400, 3000)
 	nreq := m.N(80, 100)
 	for a := 0; a < napi; a++ {
 		d := genAPI(r, ru)
+		canned := genCanned(rl)
 		m.Begin(map[string]interface{}{"kind": "api", "api": d})
 		b, err := build(d)
 		if err != nil {
@@ -2276,6 +2469,7 @@ func run(m *mon.M) {
 		var recent []ReqDesc
 		for q := 0; q < nreq; q++ {
 			c := &Case{API: d, Req: genReq(r, ru, d, q), Warm: append([]ReqDesc(nil), recent...)}
+			useCanned(rl, canned, &c.Req)
 			recent = append(recent, c.Req)
 			if len(recent) > 3 {
 				recent = recent[1:]
